@@ -105,6 +105,25 @@ def run(ctx, rep):
             rep.fail("A13", "C20|A13|%s|arm=%s|unknown-carrier|%s" % (ETS, arm, u), cfg.where(fn),
                      "with %d expected tokens the elements pass through `%s`, which the rule does not know to keep every element (only indexing, range slicing, join and format! are known to): tokens may be dropped on the way "
                      "(e.g. chunks_exact discards the remainder)" % (n, u), witness={"expected": n, "sentence": fmt_label(lab(p.ret))[:300]})
+        if n == 0:
+            # nothing expected: the sentence must name nothing at all (an invented "Expected EOF" names a token kind lalrpop never lists)
+            rl0 = lab(p.ret)
+            lits0 = []
+
+            def lit0(l):
+                if isinstance(l, tuple) and l and l[0] == "const" and l[1] in ("str", "bytes"):
+                    lits0.append(str(l[2]))
+                elif isinstance(l, tuple) and l and l[0] == "fmt":
+                    lits0.append(l[1] if isinstance(l[1], str) else repr(l[1]))
+                    for a in l[2] if len(l) > 2 and isinstance(l[2], tuple) else ():
+                        lit0(a)
+                elif isinstance(l, tuple):
+                    for x in l:
+                        lit0(x)
+            lit0(rl0)
+            empty = all(not x.strip() for x in lits0)
+            rep.check(empty, "A13", "C20|A13|%s|empty-set" % ETS, cfg.where(fn),
+                      "with no expected token the sentence must be empty: it is built from the text %r, which names something the parser did not expect" % (lits0,), sample={"n": 0, "text": lits0})
         key = "C20|A13|%s|arm=%s|missing=%s" % (ETS, arm, miss_sym) if missing else "C20|A13|%s|arm=%s|n=%d" % (ETS, arm, n)
         arms.setdefault(arm, []).append(n)
         rep.check(ok, "A13", key, cfg.where(fn),
